@@ -372,7 +372,8 @@ def getSchedulable (g : GraphS) (time lookahead : Int) (retract : Bool) (policy 
       else
         let some p := t.placement | throw .attributeError
         let some pt := p.time | throw .typeError
-        ect := ectSet ect n (pt + (← resolveConditional.liftExcept t.remainingTime))
+        -- a placement whose time has passed (deferred start) cannot start before now
+        ect := ectSet ect n (max pt time + (← resolveConditional.liftExcept t.remainingTime))
       queue := queue ++ [n]
     | .cancelled => pure ()
     | .virtual => pure ()
